@@ -201,6 +201,7 @@ class World:
         self.other_tasks: list[asyncio.Task] = []
         self.cancelled: set = set()
         self.handler_task = None
+        self.jumped = 0.0
         self.notes: list[str] = []
 
     # ---- setup
@@ -280,6 +281,8 @@ class World:
         self.close_log.append(rec)
 
         async def run():
+            rec["start"] = self.loop.time()  # when close() is actually entered (the clock may have moved since the task was created)
+            rec["jump0"] = self.jumped
             try:
                 rec["res"] = await self.ws.close(code=code)
             except asyncio.CancelledError:
@@ -289,6 +292,7 @@ class World:
             except BaseException as e:  # noqa: BLE001
                 rec["res"] = "raise:" + type(e).__name__
             rec["end"] = self.loop.time()
+            rec["jump1"] = self.jumped
 
         t = self.loop.create_task(run())
         self.close_tasks.append(t)
@@ -362,6 +366,13 @@ class World:
                     self.cancelled.add(id(t))
         elif kind == "tick":
             self.loop.advance(ev[1])
+        elif kind == "jump":
+            # move the clock to the next timer WITHOUT letting the loop go idle first: what is already queued (e.g. a frame
+            # in flight) and the timer callback then run in the same loop iteration
+            nt = self.loop.next_timer()
+            if nt is not None and nt > self.loop.time():
+                self.jumped += nt - self.loop.time()  # time that passed while runnable work was queued: not charged to close()
+                self.loop._vtime = nt
         else:
             raise AssertionError(ev)
 
@@ -418,7 +429,7 @@ def execute(case: dict) -> tuple[bool, list[str]]:
                     raise Violation("close-never-returns", f"close(code={rec['code']}) started at t={rec['start']} has not returned at t={loop.time()} ({phase}); close timeout {T}; cfg={cfg} sched={sched}")
                 if rec["res"] == "cancelled" or t.cancelled() or rec["end"] is None:
                     continue
-                dur = rec["end"] - rec["start"]
+                dur = rec["end"] - rec["start"] - (rec.get("jump1", 0.0) - rec.get("jump0", 0.0))
                 if dur > T + 1.0 + 1e-6:
                     raise Violation("close-exceeds-timeout", f"close(code={rec['code']}) took {dur:.3f}s of virtual time, close timeout is {T}; cfg={cfg} sched={sched}")
                 if isinstance(rec["res"], str) and rec["res"].startswith("raise:"):
@@ -430,6 +441,11 @@ def execute(case: dict) -> tuple[bool, list[str]]:
                     raise Violation("receive-blocks-forever", f"receive() still blocked {phase}: closed={w.ws.closed} transport closing={w.our_t.closing} lost={w.our_t.lost_called}; log={w.recv_log}; cfg={cfg} sched={sched}")
 
         check_close_calls("after all timers fired")
+        if (cfg["heartbeat"] is not None and not cfg["peer_pong"] and not w.ws.closed and not lost and not (w.peer.transport is None or w.peer.transport.closing)
+                and not w.peer.sent_close_codes):  # (a received Close frame stops the heartbeat: the application is expected to close)
+            # the peer never answers pings: once every timer had its chance the heartbeat must have declared the session dead
+            raise Violation("heartbeat-dead", f"heartbeat={cfg['heartbeat']} and a peer that never answers pings, yet after all timers fired the session is still "
+                            f"open (closed={w.ws.closed}); recv={w.recv_log}; cfg={cfg} sched={sched}")
         if w.ws.closed:
             if not (w.our_t.closing or w.our_t.closed):
                 raise Violation("closed-but-transport-open", f"ws.closed is True but the transport is still open; close_code={w.ws.close_code}; cfg={cfg} sched={sched}")
@@ -532,6 +548,8 @@ def menu(cfg: dict) -> list[list]:
          ["peer", "garbage"], ["eof"], ["rst"], ["cancel", "recv"], ["cancel", "close"], ["tick", 0.6 * T], ["tick", 3 * T]]
     if cfg.get("compress"):
         m = [["recv"], ["close", 1000], ["send"], ["send_big"], ["peer", "close:1000"], ["eof"], ["cancel", "close"], ["tick", 3 * T]]
+    if cfg.get("heartbeat") is not None:
+        m = [["recv"], ["close", 1000], ["peer", "text"], ["peer", "ping"], ["peer", "close:1000"], ["eof"], ["jump"], ["tick", cfg["heartbeat"] / 2], ["tick", 0.6 * T]]
     if cfg.get("write_stall"):
         m = [["recv"], ["close", 1000], ["send_huge"], ["peer_pause"], ["peer_resume"], ["peer", "close:1000"], ["eof"], ["cancel", "close"], ["tick", 0.6 * T]]
     return m
@@ -581,7 +599,7 @@ def sampled_cases(draw):
         cfg["exec_delay"] = draw(st.integers(1, 4))
         m += [["send_big"], ["send_big"], ["send"]]
     if hb:
-        m += [["tick", hb], ["tick", hb / 2 + 0.1]]
+        m += [["tick", hb], ["tick", hb / 2 + 0.1], ["jump"], ["jump"]]
     n = draw(st.integers(1, 9))
     sched = [draw(st.sampled_from(m)) + [draw(st.sampled_from([-1, -1, 0, 1, 2, 3]))] for _ in range(n)]
     return {"cfg": cfg, "sched": sched}
@@ -614,7 +632,7 @@ def units(tier: str, seed: int) -> list[Unit]:
     length = 3 if tier == "quick" else 4
     nsh = 2 if tier == "quick" else 8
     for ci, cfg in enumerate(CONFIGS):
-        comp = bool(cfg.get("compress") or cfg.get("write_stall"))
+        comp = bool(cfg.get("compress") or cfg.get("write_stall") or cfg.get("heartbeat"))
         for sh in range(nsh):
             us.append(Unit(f"exh-{ci}-{sh}", unit_exhaustive, {"cfg": cfg, "length": length + (1 if comp else 0), "shard": sh, "nshards": nsh,
                                                             "gaps": [-1, 1] if (tier == "thorough" or comp or ci < 4) else [-1]}))
